@@ -33,7 +33,11 @@ def write_replay(prop, o, run=True):
     reproduced = False
     if run:
         try:
-            import contracts.replays  # registers adapters
+            import contracts.replays  # registers adapters (model-specific ones first, then the area demonstrations)
+            try:
+                import contracts.replays2
+            except ImportError:
+                pass
         except Exception as e:
             rec['native'] = {'error': 'adapters not loaded: %s' % e}
         for pat, f in ADAPTERS.items():
@@ -43,11 +47,12 @@ def write_replay(prop, o, run=True):
                     if src is None:
                         continue
                     ok, out = run_native(src)
-                    rec['native'] = {'program': src, 'reproduced': ok, 'output': out[-2000:]}
+                    rec['native'] = {'adapter': f.__name__, 'program': src, 'reproduced': ok, 'output': out[-2000:]}
                     reproduced = ok
                 except Exception as e:
                     rec['native'] = {'error': str(e)}
-                break
+                if reproduced:
+                    break       # otherwise the next matching adapter (a broader demonstration of the same clause) is tried
     with open(path, 'w') as fh:
         json.dump(rec, fh, indent=1)
     return path, reproduced
